@@ -28,4 +28,8 @@ pub trait CongestionController: Send + Sync + core::fmt::Debug {
     fn on_enter_recovery(&mut self, now: Instant);
 
     fn set_remote_window(&mut self, win: usize);
+
+    /// Verification hook: canonical dump of the controller state.
+    #[cfg(feature = "verif")]
+    fn verif_fp(&self, now: Instant, out: &mut Vec<u64>) {}
 }
